@@ -9,7 +9,7 @@ from harness.runner import BCheck
 from scenario import phasing as PH, vcf as V
 
 LEVEL = "exploration"
-LEVEL_TEXT = ("Deductive part (vcgen/z3, all inputs): PhasedBlock.add keeps leftmost/rightmost = min/max of the added variants and span() = rightmost - leftmost (contracts/stats_py.py). "
+LEVEL_TEXT = ("Deductive part (vcgen/z3, all inputs): PhasedBlock.add keeps leftmost/rightmost = min/max of the added variants and span() = rightmost - leftmost; PhasedBlock.split returns two new well-formed blocks holding exactly the variants left of split_left / right of split_right with their phases and leaves the block itself untouched; PhasingStats.__iadd__/add_* add the counters and concatenate the block lists (the ALL row is the sum) (contracts/stats_py.py). "
               "Bounded stand-in: the real run_stats on generated VCFs (phased/unphased/homozygous/missing/partial calls, interleaved and nested phase sets, several "
               "chromosomes and samples, PS and HP, ploidy 2 and 3, --only-snvs, --chromosome selections in any order, --sample) against an independent counter over the "
               "file text: variants, heterozygous (SNVs), phased, unphased, singletons, blocks, the two sum identities, block list with true extents, non-overlapping "
